@@ -9,7 +9,8 @@ Next ==
        /\ Judge(i', << <<"NoPanic", ~e.panic>>, <<"PaidFormula", MonPaidFormula(e)>>,
                        <<"NoOverpay", MonNoOverpay(e)>>, <<"Remaining", MonRemaining(e)>>,
                        <<"FloorShare", MonFloorShare(e)>>, <<"LastDrains", MonLastDrains(e)>>,
-                       <<"FailedClaim", MonFailedClaim(e)>>, <<"Factors", MonFactors(e)>> >>)
+                       <<"FailedClaim", MonFailedClaim(e)>>, <<"ClaimSucceeds", MonClaimSucceeds(e)>>,
+                       <<"DrainedAtEnd", MonDrainedAtEnd(e)>>, <<"Factors", MonFactors(e)>> >>)
        /\ Drift(i', ~e.panic /\ Conforms(e), e.op)
 Spec == Init /\ [][Next]_i
 Done == Emit("DONE", [events |-> TLCGet("stats").diameter - 1])
